@@ -62,6 +62,36 @@ type scenario struct {
 	steps []migStep
 	start int64
 	batch int
+	// slowOld: once a migration has fired, the node that owns key 0 receives the requests of the connection that carried
+	// key 0's first command a few milliseconds late (a congested connection); any other connection to it is served at once
+	slowOld bool
+}
+
+// coldMoveScenario: pipelined replay, a hot key whose slot never moves and a cold key on another node whose slot is handed over
+// early: the MOVED answer makes the client refresh its slot map while batches of the hot key are in flight on a slow connection
+func coldMoveScenario(r *hx.Rng, id int) *scenario {
+	sc := &scenario{id: id, mode: "pipeline", start: int64(100 + r.Intn(900)), batch: 1, slowOld: true}
+	hot := []byte(fmt.Sprintf("{h%d}hot", r.Intn(40)))
+	cold := []byte(fmt.Sprintf("{c%d}cold", r.Intn(40)))
+	for fakeredis.HashSlot(cold)*3/16384 == fakeredis.HashSlot(hot)*3/16384 {
+		cold = []byte(fmt.Sprintf("{c%d}cold", r.Intn(4000)))
+	}
+	sc.keys = [][]byte{hot, cold}
+	n := 12 + r.Intn(8)
+	for i := 0; i < n; i++ {
+		k := 0
+		if i%4 == 1 {
+			k = 1
+		}
+		sc.cmds = append(sc.cmds, srcCmd{name: "rpush", args: [][]byte{sc.keys[k], []byte(fmt.Sprintf("v%d", i+1))}, key: k, keys: []int{k}})
+	}
+	at := 1 + r.Intn(3)
+	dst := fakeredis.HashSlot(hot) * 3 / 16384 // the cold slot moves to the hot key's node or to the third one
+	if r.Bool() {
+		dst = 3 - dst - fakeredis.HashSlot(cold)*3/16384
+	}
+	sc.steps = []migStep{{at: at, kind: "begin", key: 1, dst: dst}, {at: at, kind: "finish", key: 1}}
+	return sc
 }
 
 // hotScenario: one hot key, single-command batches, one instant hand-over early in the run
@@ -210,6 +240,23 @@ func runScenario(sc *scenario, tr *hx.Trace) int {
 			}
 			migLog = append(migLog, map[string]interface{}{"ev": "Mig", "kind": st.kind, "k": st.key + 1, "after": int(c.ESeq.Load())})
 			fired++
+		}
+	}
+	if sc.slowOld {
+		var oldConn atomic.Int64
+		oldConn.Store(-1)
+		hotNode := cs.Nodes[fakeredis.HashSlot(sc.keys[0])*3/16384]
+		hotNode.Gate = func(connID int, name string, args [][]byte) <-chan struct{} {
+			if name != "rpush" || len(args) == 0 || string(args[0]) != string(sc.keys[0]) {
+				return nil
+			}
+			oldConn.CompareAndSwap(-1, int64(connID))
+			if int64(connID) != oldConn.Load() || !armed.Load() || len(migLog) == 0 {
+				return nil
+			}
+			ch := make(chan struct{})
+			time.AfterFunc(3*time.Millisecond, func() { close(ch) })
+			return ch
 		}
 	}
 	rcfg := config.RedisConfig{Addresses: cs.Addrs(), Type: config.RedisTypeCluster, Otype: config.RedisTypeCluster, Version: "7.0.0",
@@ -427,7 +474,9 @@ func main() {
 		}
 		r := hx.NewRng(*seed*104729 + uint64(s))
 		sc := genScenario(r, s+1+*idBase, *maxCmds)
-		if *hot > 0 && s%*hot == 0 {
+		if *hot > 0 && s%*hot == 0 && s%(2**hot) != 0 {
+			sc = coldMoveScenario(r, s+1+*idBase)
+		} else if *hot > 0 && s%*hot == 0 {
 			sc = hotScenario(r, s+1+*idBase)
 		}
 		if *onlyMode != "" {
